@@ -383,6 +383,7 @@ def _const_expr(e, mod=None, depth=0):
 def divzero_sites(ctx, R, rule_id, reach):
     P = ctx.P
     n = 0
+    fmt_sites = None
     for q in sorted(reach):
         f = P.funcs.get(q)
         if f is None:
@@ -392,9 +393,26 @@ def divzero_sites(ctx, R, rule_id, reach):
             what = None
             if isinstance(nd, ast.BinOp) and isinstance(nd.op, (ast.Div, ast.FloorDiv, ast.Mod)) and not (isinstance(nd.left, ast.Constant) and isinstance(nd.left.value, str)) and not isinstance(nd.left, ast.JoinedStr):
                 den, what = nd.right, "division"
-                # "%"-formatting with a non-literal left operand that is evidently a string
-                if isinstance(nd.op, ast.Mod) and isinstance(nd.left, (ast.Name,)) and nd.left.id in ("fmtstr", "fmt", "template"):
-                    continue
+                # "%"-formatting with a non-literal left operand: a string wherever the emitters were value-numbered
+                if isinstance(nd.op, ast.Mod):
+                    if isinstance(nd.left, (ast.Name,)) and nd.left.id in ("fmtstr", "fmt", "template"):
+                        continue
+                    if isinstance(nd.right, ast.Tuple):
+                        continue  # a tuple is never a modulus
+                    from .crash import _is_str
+
+                    g_ = f
+                    while g_ is not None and g_.is_lambda:
+                        g_ = g_.parent
+                    if _is_str(nd.left, g_, P):
+                        continue
+                    if f.module.name in ("timeline", "renderer"):
+                        if fmt_sites is None:
+                            from . import emit
+
+                            fmt_sites = emit.string_format_sites(ctx)
+                        if nd in fmt_sites:
+                            continue
             elif isinstance(nd, ast.AugAssign) and isinstance(nd.op, (ast.Div, ast.FloorDiv, ast.Mod)):
                 den, what = nd.value, "division"
             elif isinstance(nd, ast.Call) and ntext(nd.func) in ("divmod", "math.fmod") and len(nd.args) == 2:
@@ -831,7 +849,13 @@ def optkeys(ctx, R):
             R.check(k_ in guaranteed or k_ in tested, "C11.OPTKEYS", "removeOverlap|options[%r] (minPos %s, maxPos %s)" % (k_, "absent" if cfgk[0] else "present", "absent" if cfgk[1] else "present"), where(ro), "key guaranteed by the engine or merged from the defaults",
                     "removeOverlap reads options[%r] straight from the caller's dict; the engine passes only %s and the key is not merged from removeOverlap.DEFAULT_OPTIONS: KeyError" % (k_, sorted(guaranteed)), nontrivial=False)
     R.check(n >= 40, "C11.OPTKEYS.inventory", "constant option keys examined: %d" % n, "", "", "fewer option reads than expected", nontrivial=False)
-    # Timeline.__init__ builds options from the defaults, latex options merged key-wise
+    timeline_opts(ctx, R)
+
+
+def timeline_opts(ctx, R):
+    """Timeline.__init__ builds its options from the defaults overridden by the caller's dict: every default key is present
+    and, for every key, the caller's value wins when supplied."""
+    P = ctx.P
     f = P.func("timeline.Timeline.__init__")
     R.saw(f)
     evt = new_eval(P, inline_filter=lambda fn: fn.qual in (f.qual,))
@@ -845,6 +869,16 @@ def optkeys(ctx, R):
     lv = [l for p_, l in leaves(so)] if so is not None else []
     ok = bool(lv) and all(isinstance(l, DictV) and l is not d and set(l.items) >= set(d.items) for l in lv)
     R.check(ok, "GEN.OPTS-MERGE", "timeline.Timeline options", where(f), "every default key is present in self.options", "Timeline.__init__ leaves self.options=%s: not every DEFAULT_OPTIONS key is present" % (show(so, 160) if so is not None else None))
+    if ok and isinstance(d, DictV):
+        lost = []
+        for l in lv:
+            for k in d.items:
+                if "OPTS[%r]" % k not in key(l.items[k]):
+                    lost.append(k)
+        R.check(not lost, "GEN.OPTS-MERGE", "timeline.Timeline caller's values win", where(f), "for every option the caller's value is used when supplied", "Timeline.__init__ ignores the caller's value for %s (self.options holds the default whatever the caller passes): direction, sizes, colours and engine options have no effect" % sorted(set(lost))[:8])
+
+
+timeline_opts.rule_id = "GEN.OPTS-MERGE"
 
 
 @rule("GEN.FORMAT")
